@@ -646,7 +646,7 @@ _X = {
     "XExecution": ["exec_is_canceled", "exec_record_result", "exec_initialize_retry", "exec_cancel", "exec_copy_for_hedge", "exec_record",
                    "exec_last_error", "exec_copy_with_result"],
     "XRetry": ["retry_on_failure"], "XBase": ["base_post_execute"], "XCache": ["cache_get_key", "cache_pre_execute", "cache_post_execute"],
-    "XFallback": ["fallback_apply"], "XBulkhead": ["bulkhead_pre_execute"],
+    "XFallback": ["fallback_apply"], "XBulkhead": ["bulkhead_pre_execute"], "XRetryLoop": ["retry_loop_iteration"],
 }
 def _extend(pid, areas, link=True):
     c = PROPS[pid]
@@ -657,15 +657,15 @@ def _extend(pid, areas, link=True):
         c["ties"] = c["ties"] + [_LINK]
     c["manifest"]["text"] += " GEN also covers the bodies of the code this property runs through (%s): regenerated from the source on every run, proved equal to reference definitions, which the composition model is proved to compute." % ", ".join(areas)
 _extend("C01", ["XBase"])
-_extend("C02", ["XRetry", "XBase"])
+_extend("C02", ["XRetry", "XBase", "XRetryLoop"])
 _extend("C06", ["XBulkhead"], link=False)
-_extend("C08", ["XExecution", "XBulkhead"])
+_extend("C08", ["XExecution", "XBulkhead", "XRetryLoop"])
 _extend("C10", ["XFallback", "XBase"])
 _extend("C11", ["XCache"])
 _extend("C15", ["XExecution"], link=False)
-_extend("C16", ["XRetry", "XCache", "XFallback"])
+_extend("C16", ["XRetry", "XCache", "XFallback", "XRetryLoop"])
 _extend("C17", ["XExecution"])
-PROPS["C02"]["required_theorems"] += ["Failsafe.Props.C02." + t for t in ["kernel_exceeded_iff", "kernel_result", "kernel_result_not_success", "kernel_listeners", "model_retry_decision_is_the_codes"]]
+PROPS["C02"]["required_theorems"] += ["Failsafe.Props.C02." + t for t in ["kernel_exceeded_iff", "kernel_result", "kernel_result_not_success", "kernel_listeners", "model_retry_decision_is_the_codes", "model_retry_loop_is_the_codes", "kernel_loop_early_exits", "kernel_loop_continues_only_after_init"]]
 PROPS["C08"]["required_theorems"] += ["Failsafe.Props.C08." + t for t in ["cancel_first_wins", "cancel_reports_result", "ctx_end_reports_ctx_error", "initializeRetry_cancelled", "initializeRetry_clears_cell", "recordResult_cancelled", "model_cancel_answers_are_the_codes"]]
 PROPS["C10"]["required_theorems"] += ["Failsafe.Props.C10." + t for t in ["kernel_fn_called_iff", "kernel_result", "kernel_event_iff", "model_fallback_layer_is_the_codes"]]
 PROPS["C11"]["required_theorems"] += ["Failsafe.Props.C11." + t for t in ["kernel_key_precedence", "kernel_hit_iff", "kernel_store_iff", "kernel_no_key_no_io", "model_cache_layer_is_the_codes"]]
